@@ -3,6 +3,10 @@
 cd "$(dirname "$0")/.."
 SEEDS=${*:-1}
 fail=0
+# the fingerprints must describe the tree the model was validated against (refresh after every fix: commit in /repo:
+#   python3 tie/fingerprint.py snapshot /repo > tie/fingerprints.json)
+d=$(python3 tie/fingerprint.py diff /repo tie/fingerprints.json)
+if [ -n "$d" ]; then echo "STALE tie/fingerprints.json:"; echo "$d"; fail=1; fi
 for s in $SEEDS; do
   for p in $(python3 -c "import json; print(' '.join(c['property_id'] for c in json.load(open('MANIFEST.json'))['checks']))"); do
     out=$(VERIF_SEED=$s ./check $p --tier quick 2>&1); rc=$?
